@@ -125,6 +125,7 @@ pub(crate) const K_LEAF_COMPRESSED: u8 = 23; // do_read_compressed
 pub(crate) const K_LEAF_COW: u8 = 24; // do_write_cow
 pub(crate) const K_CLEARNEW: u8 = 25; // clear_new_cluster(cluster number)
 pub(crate) const K_FLUSH_REFCOUNT: u8 = 26; // flush_refcount()
+pub(crate) const K_FLUSH_MAPPING: u8 = 27; // flush_meta_generic(l1, l2cache, ..) from flush_meta
 pub(crate) const K_TRYALLOC: u8 = 14; // try_alloc_from_rb_slice (off,len = granted run; len 0 = None)
 
 const NOREC: Rec = Rec { kind: K_NONE, entry: 0, off: 0, len: 0, buf_start: 0, flags: 0 };
@@ -271,6 +272,8 @@ pub(crate) struct KEnv {
     pub write_probe_idx: Cell<usize>,
     pub cow_src: RefCell<[u8; 1024]>,
     pub backing_file: Option<KBacking>,
+    pub passes_left: Cell<usize>,
+    pub l1_shim: u8,
 }
 
 /// stand-in for the boxed backing device
@@ -304,6 +307,8 @@ impl KEnv {
             write_probe_idx: Cell::new(0),
             cow_src: RefCell::new([0; 1024]),
             backing_file: None,
+            passes_left: Cell::new(0),
+            l1_shim: 0,
         }
     }
 
@@ -555,6 +560,17 @@ impl KEnv {
     pub fn k_flush_refcount(&self) -> KResult<()> {
         self.rec(Rec { kind: K_FLUSH_REFCOUNT, ..NOREC });
         Ok(())
+    }
+    /// flush_meta_generic as seen by flush_meta: "done" after `passes_left` more passes
+    pub fn k_flush_meta_generic<F: Fn(u64) -> usize>(&self, _l1: &u8, _key_fn: F) -> KResult<bool> {
+        self.rec(Rec { kind: K_FLUSH_MAPPING, ..NOREC });
+        let left = self.passes_left.get();
+        if left == 0 {
+            Ok(true)
+        } else {
+            self.passes_left.set(left - 1);
+            Ok(false)
+        }
     }
     /// the backend's fallocate: fails or succeeds (environment decides)
     pub fn k_file_fallocate(&self, off: u64, len: usize, flags: u32) -> KResult<()> {
